@@ -6,6 +6,7 @@ import StirVerif.C20.ProofsIter
 import StirVerif.C20.ProofsPos
 import StirVerif.C20.ProofsBlock
 import StirVerif.C20.ProofsKL
+import StirVerif.C20.ProofsDescentModel
 /-!
 # C20 — component-based normalisation: data conversions are lossless, ML steps descend.  Property theorems.
 
@@ -13,6 +14,12 @@ All statements are about the executable model `StirVerif.C20` (`Model.lean`, tie
 correspondence run of `checks/c20.py`), for all scanner sizes, crystals per block, numbers of virtual crystals, fan sizes,
 ring differences and all values in an arbitrary field (ordered field / `ℝ` where stated).  Equality of arrays is
 *observational*: equality of every element read through `get`.
+
+The descent of the efficiency iteration (§6) is proved twice: abstractly, for any finite set of detectors
+(`C20_eff_coordinate_update_descends`, `C20_eff_iteration_descends`), and for the executable model itself
+(`C20_eff_iteration_descends_on_model`, by the refinement `ProofsDescentModel.lean`: the in-place detector loop of `iterateEff`
+is the abstract sweep, `klPairs` is half the abstract objective).  The only statement of this file that is stated but not
+proved is `C20_geo_fixed_point_statement` (a `def … : Prop`).
 -/
 namespace StirVerif.C20
 
@@ -332,15 +339,64 @@ example : PairData (ι := Fin 2) (fun a b => if a = b then 0 else 3) (fun a b =>
   m_diag := by simp
   supp := by intro a b; split <;> norm_num
 
-/-- **Not proved at the level of the executable model** (the abstract formulation above is; the oracle checks it on the
-implementation): the Kullback-Leibler distance summed once per detector pair does not increase under `iterate_efficiencies`. -/
-def C20_eff_iteration_descends_on_model : Prop :=
+/-- *"every efficiency iteration leaves the Kullback-Leibler distance between symmetric data and the product model no larger than
+before"* — **for the executable model**: the Kullback-Leibler distance summed once per detector pair (`klPairs`) between the data
+and `ε_a ε_b m_ab` (`apply_efficiencies` on the model) does not increase under `iterate_efficiencies` (`iterateEff`: the in-place
+loop over the detectors on the `FanProjData` / `Array<2,float>` storage, fan sums from `make_fan_sum_data`), for every
+well-formed `FanProjData` geometry (any numbers of rings and detectors, ring difference, fan size).  Hypotheses: non-negative data
+and positive model on every stored entry, data and model symmetric (the two stored copies of an in-ring LOR agree), positive
+efficiencies, every detector has a positive fan sum.
+Proof (`ProofsDescentModel.lean`): refinement to the abstract theorem `C20_eff_iteration_descends` with `ι` = the detectors,
+`y_ab` / `m_ab` = `data.at` / `model.at` inside the window and `0` outside — the two inner loops of `FanProjData::sum` and of the
+denominator visit every detector of the window exactly once (`loop_sum_eq`), one pass of the loop body is the coordinate update
+(`effStep_refines`), the loop is the sweep (`iterateEff_refines`), and the filtered loop nest of `klPairs` names every unordered
+pair of the window exactly once, so the abstract objective is `2 · klPairs` (`klObjective_eq_two_mul_klPairs`). -/
+theorem C20_eff_iteration_descends_on_model :
   ∀ (d : Dims) (data model : Fan ℝ) (eff : Tab ℝ), d.WF →
     (∀ c ∈ d.canon, 0 ≤ data.get (d.key c) ∧ 0 < model.get (d.key c)) →
     (∀ ra a rb b, d.inWindow ra a rb b → data.at d ra a rb b = data.at d rb b ra a ∧ model.at d ra a rb b = model.at d rb b ra a) →
     (∀ x ∈ d.dets, 0 < eff.get x ∧ 0 < (makeFanSums d data).get x) →
     klPairs Real.log d data (applyEff d model (iterateEff d eff (makeFanSums d data) model) true) 0 ≤
-      klPairs Real.log d data (applyEff d model eff true) 0
+      klPairs Real.log d data (applyEff d model eff true) 0 :=
+  fun _ data model eff wf hpos hsym heff => iterateEff_descends_klPairs wf data model eff hpos hsym heff
+
+/-- The refinement behind it, one step: the body of the detector loop of `iterate_efficiencies` for detector `k`, run in place on
+the current table `T`, changes exactly the entry of `k` — to `fan_sum_k / Σ_b ε_b m_kb` with the current `ε`, `0` where the fan
+sum is `0` — i.e. it is the abstract coordinate update `effUpdate` on `ι` = detectors of `d`; and the whole loop is the abstract
+sweep over the detectors in loop order. -/
+theorem C20_eff_iteration_refines_abstract {d : Dims} (wf : d.WF) (data model : Fan ℝ) (T : Tab ℝ) :
+    (∀ k : Det d, epsOf d (effStep d (makeFanSums d data) model T k.1) = effUpdate (yOf d data) (yOf d model) (epsOf d T) k) ∧
+      epsOf d (iterateEff d T (makeFanSums d data) model) = effSweep (yOf d data) (yOf d model) (epsOf d T) d.detList ∧
+      d.detList.map Subtype.val = d.dets :=
+  ⟨fun k => effStep_refines wf data model T k, iterateEff_refines wf data model T, detList_map_val d⟩
+
+/-- hypotheses of `C20_eff_iteration_descends_on_model` are satisfiable by non-constant data: 2 rings of 8 detectors, ring
+difference 1, half fan 2; data `ra + rb + 1` (1 and 3 within the rings, 2 between them), model 2, efficiencies 1/2 -/
+example : ∃ (data model : Fan ℝ) (eff : Tab ℝ), (⟨2, 8, 1, 2⟩ : Dims).WF ∧
+    (∀ c ∈ (⟨2, 8, 1, 2⟩ : Dims).canon, 0 ≤ data.get ((⟨2, 8, 1, 2⟩ : Dims).key c) ∧ 0 < model.get ((⟨2, 8, 1, 2⟩ : Dims).key c)) ∧
+    (∀ ra a rb b, (⟨2, 8, 1, 2⟩ : Dims).inWindow ra a rb b →
+      data.at ⟨2, 8, 1, 2⟩ ra a rb b = data.at ⟨2, 8, 1, 2⟩ rb b ra a ∧ model.at ⟨2, 8, 1, 2⟩ ra a rb b = model.at ⟨2, 8, 1, 2⟩ rb b ra a) ∧
+    (∀ x ∈ (⟨2, 8, 1, 2⟩ : Dims).dets, 0 < eff.get x ∧ 0 < (makeFanSums ⟨2, 8, 1, 2⟩ data).get x) ∧
+    data.at ⟨2, 8, 1, 2⟩ 0 0 0 3 ≠ data.at ⟨2, 8, 1, 2⟩ 0 0 1 3 := by
+  have wf : (⟨2, 8, 1, 2⟩ : Dims).WF := by decide
+  have hg : ∀ r r' : Int, ((r + r' + 1 : Int) : ℝ) = ((r' + r + 1 : Int) : ℝ) := fun r r' => by rw [add_comm r r']
+  have hdata : ∀ c ∈ (⟨2, 8, 1, 2⟩ : Dims).canon,
+      0 < (Fan.ofFun ⟨2, 8, 1, 2⟩ fun c => ((c.1 + c.2.2.1 + 1 : Int) : ℝ)).get ((⟨2, 8, 1, 2⟩ : Dims).key c) := by
+    intro c hc
+    rw [Fan.ofFun_get wf _ hc]
+    obtain ⟨⟨h1, _⟩, _, ⟨h3, _⟩, _⟩ := mem_canon.1 hc
+    have h3' : 0 ≤ c.2.2.1 := le_trans h1 (le_trans (le_max_left _ _) h3)
+    exact_mod_cast (by omega : 0 < c.1 + c.2.2.1 + 1)
+  refine ⟨Fan.ofFun _ fun c => ((c.1 + c.2.2.1 + 1 : Int) : ℝ), Fan.const _ 2, Tab.const _ (1 / 2), wf,
+    fun c hc => ⟨(hdata c hc).le, by rw [Fan.const_get _ _ hc]; norm_num⟩,
+    fun ra a rb b h => ⟨?_, ?_⟩, fun x hx => ⟨by rw [Tab.const_get _ _ hx]; norm_num, makeFanSums_pos wf _ hdata hx⟩, ?_⟩
+  · rw [Fan.ofFun_at_rings wf (fun r r' => ((r + r' + 1 : Int) : ℝ)) hg h,
+      Fan.ofFun_at_rings wf (fun r r' => ((r + r' + 1 : Int) : ℝ)) hg (inWindow_symm wf h)]
+    exact hg ra rb
+  · rw [Fan.const_at wf _ h, Fan.const_at wf _ (inWindow_symm wf h)]
+  · rw [Fan.ofFun_at_rings wf (fun r r' => ((r + r' + 1 : Int) : ℝ)) hg (by decide),
+      Fan.ofFun_at_rings wf (fun r r' => ((r + r' + 1 : Int) : ℝ)) hg (by decide)]
+    norm_num
 
 /-- The library's own `KL(const FanProjData&, const FanProjData&, …)` (`klFan`) is *not* that distance: its loop nest visits an
 in-ring LOR twice (as `(ra,a,ra,b)` and `(ra,b,ra,a)`, two array elements) and a LOR between rings once — e.g. 1 ring of 4
